@@ -27,6 +27,7 @@ import (
 )
 
 type pkg struct {
+	dir   string
 	fset  *token.FileSet
 	files map[string]*ast.File
 	funcs map[string]*ast.FuncDecl // "Recv.Name" or "Name"
@@ -34,7 +35,7 @@ type pkg struct {
 }
 
 func load(dir string) *pkg {
-	p := &pkg{fset: token.NewFileSet(), files: map[string]*ast.File{}, funcs: map[string]*ast.FuncDecl{}, consts: map[string]ast.Expr{}}
+	p := &pkg{dir: dir, fset: token.NewFileSet(), files: map[string]*ast.File{}, funcs: map[string]*ast.FuncDecl{}, consts: map[string]ast.Expr{}}
 	names, _ := filepath.Glob(filepath.Join(dir, "*.go"))
 	sort.Strings(names)
 	for _, n := range names {
